@@ -66,8 +66,8 @@ Qed.
 
 Hypothesis eqb_refl : forall a, k_eqb K a a = true.
 Hypothesis upd_below_max : forall va vb md sa sb sx,
-  ltb va (k_max K) = true -> ltb vb (k_max K) = true -> ltb md (k_max K) = true ->
-  ltb (k_upd K va vb md sa sb sx) (k_max K) = true.
+  ltb va (k_inf K) = true -> ltb vb (k_inf K) = true -> ltb md (k_inf K) = true ->
+  ltb (k_upd K va vb md sa sb sx) (k_inf K) = true.
 (* where a changed cell is not re-checked against the priority *)
 Hypothesis rename_reducible : below_kind_of meth = BelowRename ->
   forall va vb md sa sb sx, (uses_sizes_ab meth = true -> 0 < sa /\ 0 < sb) ->
@@ -298,7 +298,7 @@ Qed.
 Hypothesis HAct : AInv act L.
 Hypothesis HActN : length (a_next act) = n0.
 
-Lemma below_fold_lb dist sa sb : ltb dist (k_max K) = true ->
+Lemma below_fold_lb dist sa sb : ltb dist (k_inf K) = true ->
   (uses_sizes_ab meth = true -> 0 < sa /\ 0 < sb) -> forall xs s M s' M', NoDup xs ->
   (forall x, In x xs -> In x L /\ x < a) -> GIu s M -> LBa (st_queue s) M ->
   (forall x, In x xs -> forall va vb, wcell M x a = Some va -> wcell M x b = Some vb ->
@@ -326,7 +326,7 @@ Proof.
     exact (Hrem y (or_intror Hy) va vb Ca Cb).
 Qed.
 
-Lemma between_fold_lb dist sa sb : ltb dist (k_max K) = true -> forall xs s M s' M',
+Lemma between_fold_lb dist sa sb : ltb dist (k_inf K) = true -> forall xs s M s' M',
   (forall x, In x xs -> In x L /\ a < x /\ x < b) -> GIu s M -> LBa (st_queue s) M ->
   mfold (gen_between K p meth a b dist sa sb) xs (s, M) = Ok (s', M') ->
   GIu s' M' /\ LBa (st_queue s') M'.
@@ -342,7 +342,7 @@ Proof.
     exact (IH s1 M1 s' M' (fun y Hy => Hxs y (or_intror Hy)) HG1 HLB1 H).
 Qed.
 
-Lemma above_fold_lb dist sa sb : ltb dist (k_max K) = true -> forall xs s M mn s' M' mn',
+Lemma above_fold_lb dist sa sb : ltb dist (k_inf K) = true -> forall xs s M mn s' M' mn',
   (forall x, In x xs -> In x L /\ b < x) -> GIu s M -> LBa (st_queue s) M ->
   (tracks_candidates meth = true -> nth_error (h_prio (st_queue s)) b = Some mn) ->
   mfold (gen_above K p meth a b dist sa sb) xs (s, M, mn) = Ok (s', M', mn') ->
@@ -367,7 +367,7 @@ Proof.
   intros HG HLB Hd0 HndL Hgmin H. pose proof HG as (E1 & E2 & Hwf & Ho & Hbm & HBK).
   pose proof HAct as (Hlen & Hl & Hdead).
   pose proof (@live_n _ Ha) as Han. pose proof (@live_n _ Hb) as Hbn.
-  assert (Hdlt : ltb dist0 (k_max K) = true) by (exact (Hbm a b dist0 Ha Hb ltac:(lia) Hd0)).
+  assert (Hdlt : ltb dist0 (k_inf K) = true) by (exact (Hbm a b dist0 Ha Hb ltac:(lia) Hd0)).
   unfold gen_update in H.
   destruct (sizes_ab meth s a b) as [[sa sb]| |] eqn:Esab; cbn [bind] in H; try discriminate.
   assert (Hsz : uses_sizes_ab meth = true -> 0 < sa /\ 0 < sb).
@@ -455,16 +455,16 @@ Proof.
     { intros x Hx. apply filter_In in Hx. destruct Hx as [Hx Hlt]. apply Nat.ltb_lt in Hlt. rewrite HMo. split; [exact Hlt|apply HB; exact Hx]. }
     assert (Haz' : a < z) by (pose proof (Hzmax a Ha); lia).
     assert (Hzxs : In z xs) by (apply filter_In; split; [exact Hz|apply Nat.ltb_lt; exact Haz']).
-    destruct (@rescan_spec T K p ltb_irrefl ltb_trans M a Hwf xs (k_max K) (st_nearest s) Hxs ltac:(rewrite Hnl; apply HB; exact Ha))
+    destruct (@rescan_spec T K p ltb_irrefl ltb_trans M a Hwf xs (k_inf K) (st_nearest s) Hxs ltac:(rewrite Hnl; apply HB; exact Ha))
       as (mn & nr & Hfold & Hnrl & Hfr & Hmin & Hcase).
-    change (mfold (rescan_step K p M a) xs (k_max K, st_nearest s)) with
+    change (mfold (rescan_step K p M a) xs (k_inf K, st_nearest s)) with
       (mfold (fun (acc : T * list nat) x => let '(mn, nr) := acc in
                 do v <- mget p M a x; if ltb v mn then do nr' <- vset nr a x; Ok (v, nr') else Ok (mn, nr))
-             xs (k_max K, st_nearest s)) in Hfold.
+             xs (k_inf K, st_nearest s)) in Hfold.
     rewrite Hfold. cbn [bind].
     destruct (@cellv_ex T p M Hwf a z ltac:(lia) ltac:(rewrite HMo; apply HB; exact Ha) ltac:(rewrite HMo; exact Hzn)) as (vz & Hvz).
     pose proof (Hbm Ha Hz ltac:(lia) Hvz) as Hvzlt.
-    assert (Himp : exists x, In x xs /\ nth_error nr a = Some x /\ wcell M a x = Some mn /\ ltb mn (k_max K) = true).
+    assert (Himp : exists x, In x xs /\ nth_error nr a = Some x /\ wcell M a x = Some mn /\ ltb mn (k_inf K) = true).
     { destruct Hcase as [[-> _]|Hex]; [|exact Hex]. pose proof (Hmin z vz Hzxs Hvz). congruence. }
     destruct Himp as (x' & Hx' & Hnx' & Hcx' & Hmnlt).
     destruct (@set_priority_spec T ltb n0 (st_queue s) a mn HI Haq) as (q' & Hset & HI' & Hprio' & Hrem' & Hlen' & Hin').
@@ -669,27 +669,27 @@ Qed.
 
 Lemma generic_init_lb (s : lstate T) (d : dend T) (m : list T) (n0 : nat) :
   n0 <> 0 -> length (square_all K m) = n0 * (n0 - 1) / 2 ->
-  Forall (fun v => ltb v (k_max K) = true) (square_all K m) ->
+  Forall (fun v => ltb v (k_inf K) = true) (square_all K m) ->
   let M := {| m_data := square_all K m; m_obs := n0 |} in
   forall s1,
     (do '(dists, nearest) <-
-       mfold (init_row K p M) (seq 0 (n0 - 1)) (h_prio (h_heapify_pre (k_max K) (st_queue (st_reset K s n0))), st_nearest (st_reset K s n0));
-     do q1 <- h_heapify_post ltb (h_heapify_pre (k_max K) (st_queue (st_reset K s n0))) dists;
+       mfold (init_row K p M) (seq 0 (n0 - 1)) (h_prio (h_heapify_pre (k_inf K) (st_queue (st_reset K s n0))), st_nearest (st_reset K s n0));
+     do q1 <- h_heapify_post ltb (h_heapify_pre (k_inf K) (st_queue (st_reset K s n0))) dists;
      Ok (st_with_nearest (st_with_queue (st_reset K s n0) q1) nearest)) = Ok s1 ->
     LB (seq 0 n0) n0 (st_queue s1) M.
 Proof.
   intros Hz Hlen Hall M s1 H.
   assert (Hwf : wf_mat M) by (unfold wf_mat, M; cbn [m_data m_obs]; exact Hlen).
-  assert (Hq0 : h_heapify_pre (k_max K) (st_queue (st_reset K s n0)) = h_canonical (k_max K) n0).
-  { unfold h_heapify_pre. cbn [st_reset st_queue]. rewrite (h_reset_canonical (k_max K) (st_queue s) n0).
+  assert (Hq0 : h_heapify_pre (k_inf K) (st_queue (st_reset K s n0)) = h_canonical (k_inf K) n0).
+  { unfold h_heapify_pre. cbn [st_reset st_queue]. rewrite (h_reset_canonical (k_inf K) (st_queue s) n0).
     cbn [h_canonical h_prio]. rewrite map_length, seq_length. apply h_reset_canonical. }
   rewrite Hq0 in H. change (st_nearest (st_reset K s n0)) with (clear_resize (st_nearest s) n0 0) in H.
-  destruct (mfold (init_row K p M) (seq 0 (n0 - 1)) (h_prio (h_canonical (k_max K) n0), clear_resize (st_nearest s) n0 0))
+  destruct (mfold (init_row K p M) (seq 0 (n0 - 1)) (h_prio (h_canonical (k_inf K) n0), clear_resize (st_nearest s) n0 0))
     as [[dists nearest]| |] eqn:Hinit; cbn [bind] in H; try discriminate.
   destruct (@init_rows_lb M n0 Hwf eq_refl (n0 - 1) _ _ _ _ ltac:(lia)
               ltac:(cbn [h_canonical h_prio]; rewrite map_length, seq_length; reflexivity)
               ltac:(unfold clear_resize; apply vresize_length) Hinit) as (Hld & Hln & Hrows).
-  destruct (@heapify_post_spec T ltb n0 (h_canonical (k_max K) n0) dists (canonical_inv (k_max K) n0)
+  destruct (@heapify_post_spec T ltb n0 (h_canonical (k_inf K) n0) dists (canonical_inv (k_inf K) n0)
               ltac:(cbn [h_canonical h_heap]; rewrite map_length, seq_length; reflexivity) Hld)
     as (q1 & Hheap & HI1 & Hp1 & _).
   rewrite Hheap in H. cbn [bind] in H. inversion H; subst s1. cbn [st_with_nearest st_with_queue st_queue].
@@ -740,7 +740,7 @@ Proof.
 Qed.
 
 Theorem generic_greedy s d m n s' d' m' M0 :
-  Forall (fun v => k_ltb K v (k_max K) = true) (square_all K m) ->
+  Forall (fun v => k_ltb K v (k_inf K) = true) (square_all K m) ->
   generic_with K p meth s d m n = Ok (s', d', m') ->
   prologue p (square_all K m) n = Ok M0 ->
   (forall x y v, x <> y -> x < m_obs M0 -> y < m_obs M0 -> wcell M0 x y = Some v -> crit (Leaf x) (Leaf y) v) ->
@@ -762,9 +762,9 @@ Proof.
     pose proof (@generic_init_lb s d m n0 Hz Hlen Hall s1 Hinit) as HLB0.
     cbn zeta in Hinit, HG0, HLB0. rewrite <- EM in Hinit, HG0, HLB0.
     destruct (mfold (init_row K p M0) (seq 0 (n0 - 1))
-                (h_prio (h_heapify_pre (k_max K) (st_queue (st_reset K s n0))), st_nearest (st_reset K s n0)))
+                (h_prio (h_heapify_pre (k_inf K) (st_queue (st_reset K s n0))), st_nearest (st_reset K s n0)))
       as [[dists nearest]| |]; cbn [bind] in Hinit, H; try discriminate.
-    destruct (h_heapify_post (k_ltb K) (h_heapify_pre (k_max K) (st_queue (st_reset K s n0))) dists) as [q1| |];
+    destruct (h_heapify_post (k_ltb K) (h_heapify_pre (k_inf K) (st_queue (st_reset K s n0))) dists) as [q1| |];
       cbn [bind] in Hinit, H; try discriminate.
     inversion Hinit as [Es1]. rewrite Es1 in H.
     assert (HW0 : LWInv crit s1 M0 (seq 0 n0) Leaf).
